@@ -147,8 +147,27 @@ class Tx(ast.NodeTransformer):
             return Tx._safe(n.operand)
         return False
 
+    def _bits_init_size(self, node):
+        """Bits.__init__:  `if self.ival>0 and (size is None): self.size = self.ival.bit_length()`.
+        For ival == 0 the body is a no-op (bit_length 0 -> size 0 = the initial state), so with a symbolic non-negative
+        ival the body is simply executed (no fork on ival > 0).  Shape-checked; anything else is left alone."""
+        if '.'.join(self.stack) != 'Bits.__init__' or self.modname != 'crysp.bits':
+            return False
+        t = node.test
+        if not (isinstance(t, ast.BoolOp) and isinstance(t.op, ast.And) and len(t.values) == 2 and not node.orelse and len(node.body) == 1):
+            return False
+        src = ast.unparse(node)
+        if src.replace(' ', '') != 'ifself.ival>0andsizeisNone:\nself.size=self.ival.bit_length()'.replace(' ', ''):
+            return False
+        gt = t.values[0]
+        t.values = [t.values[1], ast.Call(func=ast.Name('__sx_maybe_pos__', ast.Load()), args=[gt.left], keywords=[])]
+        self.converted.append('Bits.__init__(size-from-value)')
+        return True
+
     def visit_If(self, node):
         self.generic_visit(node)
+        if self._bits_init_size(node):
+            return node
         r = self._try_ifconv(node)
         if r is not None:
             return r
